@@ -1,5 +1,629 @@
+/-
+  C04 — subtotals behave as merged categories; differences as signed merges.
+
+  Model: Model/Subtotals.lean (gauntlet, id → idx resolution, the block constructors of
+  matrix/subtotals.py and stripe/insertion.py), Model/SubtotalMeasures.lean (counts, bases,
+  proportions, NaN measures).  Spec: Spec/SubtotalSpec.lean (signed merge by ids, merged table).
+
+  Everything is stated for ALL values (NaN, ±∞ included) and all sizes unless a hypothesis says
+  otherwise.  `WaveDiff.multi` is the predicate AFTER fix F1; the unfixed predicate is refuted
+  in `wave_diff_multi_legacy_counterexample`.  Finding F12 (intersections of proportions bypass
+  the wave-difference rule) is `merge_equiv_proportions_catdate_counterexample`.
+-/
 import CrCube.Model.Subtotals
 import CrCube.Model.SubtotalMeasures
 import CrCube.Spec.SubtotalSpec
+import CrCube.Spec.Survey
+import CrCube.Lemmas.ValAlgebra
+import CrCube.Lemmas.SubtotalFacts
+import CrCube.Lemmas.Wsum
+import CrCube.Lemmas.MergeFacts
+import CrCube.Lemmas.MergePrims
+
 namespace CrCube.C04
+open CrCube SubSpec
+
+/-! ## 1. the count of a subtotal is the signed merge of the listed, existing elements -/
+
+/-- an insertion none of whose ids exists never becomes a subtotal -/
+theorem gauntlet_drops_stale (validIds : List Int) (i : Insertion)
+    (h : ∀ x ∈ i.positive ++ i.negative, x ∉ validIds) : i.passes validIds = false := by
+  unfold Insertion.passes
+  have : (i.positive ++ i.negative).any (fun x => validIds.contains x) = false := by
+    rw [List.any_eq_false]
+    intro x hx
+    simp only [List.contains_iff_mem]
+    exact h x hx
+  rw [this, Bool.and_false]
+
+/-- **subtotal_count** (rows): the inserted row of `SumSubtotals` is Σ addends − Σ subtrahends,
+    taken over the existing elements whose id is listed (Spec `signedMerge`). -/
+theorem subtotal_count (b : Nat → Nat → Val) (validIds : List Int) (i : Insertion) (j : Nat) :
+    SumSub.row b false (i.toSubtotal validIds) j
+      = signedMerge validIds i.positive i.negative (fun a => b a j) := by
+  unfold SumSub.row signedMerge Insertion.toSubtotal
+  simp only [Bool.false_and, Bool.false_eq_true, if_false, idxsOfIds_keepValidIds, sumAt_idxsOfIds]
+
+/-- **subtotal_count** (columns) -/
+theorem subtotal_count_col (b : Nat → Nat → Val) (validIds : List Int) (i : Insertion) (r : Nat) :
+    SumSub.col b false (i.toSubtotal validIds) r
+      = signedMerge validIds i.positive i.negative (fun a => b r a) := by
+  unfold SumSub.col signedMerge Insertion.toSubtotal
+  simp only [Bool.false_and, Bool.false_eq_true, if_false, idxsOfIds_keepValidIds, sumAt_idxsOfIds]
+
+/-- **subtotal_count** on the counts measure of a slice: inserted row `k` is the signed merge of
+    the k-th surviving insertion (responses without valid counts) -/
+theorem subtotal_count_block (m : MatCounts) (validIds : List Int) (ins : List Insertion)
+    (colSubs : List Subtotal) (rcd ccd : Bool) (k j : Nat) (hk : k < (live validIds ins).length) :
+    (Msr.counts m false ⟨resolveSubtotals validIds ins, colSubs, rcd, ccd⟩).insRows k j
+      = signedMerge validIds ((live validIds ins)[k]).positive ((live validIds ins)[k]).negative
+          (fun a => m.counts a j) := by
+  simp only [Msr.counts, SumSub.blocks]
+  rw [resolve_subAt validIds ins k hk, subtotal_count]
+
+/-- stripe twin -/
+theorem subtotal_count_strand (v : Nat → Val) (validIds : List Int) (i : Insertion) :
+    Stripe.sumVal v (i.toSubtotal validIds) = signedMerge validIds i.positive i.negative v := by
+  unfold Stripe.sumVal signedMerge Insertion.toSubtotal
+  simp only [idxsOfIds_keepValidIds, sumAt_idxsOfIds]
+
+/-- the listed ids matter only through WHICH existing elements they name: stale ids, missing
+    ids, repetitions and the order of the list are irrelevant -/
+theorem sumListed_congr (validIds ids ids' : List Int) (v : Nat → Val)
+    (h : ∀ x ∈ validIds, (x ∈ ids ↔ x ∈ ids')) :
+    sumListed validIds ids v = sumListed validIds ids' v := by
+  unfold sumListed vsum
+  congr 1
+  apply List.map_congr_left
+  intro k hk
+  have hm := getD_mem_of_lt validIds k (List.mem_range.mp hk)
+  have : ids.contains (validIds.getD k 0) = ids'.contains (validIds.getD k 0) := by
+    rw [Bool.eq_iff_iff]; simp only [List.contains_iff_mem]; exact h _ hm
+  rw [this]
+
+/-- a stale id contributes nothing -/
+theorem sumListed_stale (validIds ids : List Int) (x : Int) (hx : x ∉ validIds) (v : Nat → Val) :
+    sumListed validIds (x :: ids) v = sumListed validIds ids v := by
+  apply sumListed_congr
+  intro y hy
+  have : y ≠ x := fun h => hx (h ▸ hy)
+  simp [this]
+
+/-- a repeated id counts once -/
+theorem sumListed_dup (validIds ids : List Int) (x : Int) (hx : x ∈ ids) (v : Nat → Val) :
+    sumListed validIds (x :: ids) v = sumListed validIds ids v := by
+  apply sumListed_congr
+  intro y _
+  constructor
+  · intro h; rcases List.mem_cons.mp h with rfl | h
+    · exact hx
+    · exact h
+  · intro h; exact List.mem_cons_of_mem _ h
+
+/-- for distinct existing ids the listed sum is literally "the sum of the addends' values" -/
+theorem sumListed_eq_sum_ids (validIds ids : List Int) (v : Nat → Val)
+    (hv : validIds.Nodup) (hi : ids.Nodup) (hsub : ∀ x ∈ ids, x ∈ validIds) :
+    sumListed validIds ids v = Val.sum (ids.map (fun x => v (validIds.idxOf x))) := by
+  rw [← sumAt_idxsOfIds]
+  have hperm : (idxsOfIds validIds ids).Perm (ids.map (fun x => validIds.idxOf x)) := by
+    rw [List.perm_ext_iff_of_nodup (idxsOfIds_nodup _ _)]
+    · intro k
+      rw [mem_idxsOfIds, List.mem_map]
+      constructor
+      · rintro ⟨hlt, hmem⟩
+        refine ⟨_, hmem, ?_⟩
+        rw [getD_of_lt _ _ _ hlt]
+        exact List.Nodup.idxOf_getElem hv k hlt
+      · rintro ⟨x, hx, rfl⟩
+        have hlt : validIds.idxOf x < validIds.length := List.idxOf_lt_length_iff.mpr (hsub x hx)
+        refine ⟨hlt, ?_⟩
+        rw [getD_of_lt _ _ _ hlt, List.getElem_idxOf]
+        exact hx
+    · apply List.Nodup.map_on _ hi
+      intro x hx y hy hxy
+      have := congrArg (fun k => validIds.getD k 0) hxy
+      beta_reduce at this
+      rw [getD_of_lt _ _ _ (List.idxOf_lt_length_iff.mpr (hsub x hx)),
+          getD_of_lt _ _ _ (List.idxOf_lt_length_iff.mpr (hsub y hy)),
+          List.getElem_idxOf, List.getElem_idxOf] at this
+      exact this
+  unfold sumAt
+  rw [Val.sum_perm (hperm.map v), List.map_map]
+  rfl
+
+/-! ## 2. an intersection is the same whichever direction it is accumulated in -/
+
+/-- **intersection_symmetric**: rows-then-columns = columns-then-rows, for every base matrix
+    (NaN and infinities included), every pair of subtotals and every setting of the NaN flags -/
+theorem intersection_symmetric (b : Nat → Nat → Val) (dcn drn : Bool) (rs cs : Subtotal) :
+    SumSub.inter b dcn drn rs cs = SumSub.interColsFirst b dcn drn rs cs := by
+  unfold SumSub.inter SumSub.interColsFirst
+  by_cases hc : ((cs.isDiff && rs.isDiff) || (cs.isDiff && dcn) || (rs.isDiff && drn)) = true
+  · simp [hc]
+  · simp only [hc, if_false]
+    have hr : (drn && rs.isDiff) = false := by
+      cases hd : drn <;> cases hs : rs.isDiff <;> simp_all
+    have hcc : (dcn && cs.isDiff) = false := by
+      cases hd : dcn <;> cases hs : cs.isDiff <;> simp_all
+    have hrow : SumSub.row b drn rs
+        = fun j => sumAt rs.addendIdxs (fun i => b i j) - sumAt rs.subtrahendIdxs (fun i => b i j) := by
+      funext j; simp [SumSub.row, hr]
+    have hcol : SumSub.col b dcn cs
+        = fun i => sumAt cs.addendIdxs (fun j => b i j) - sumAt cs.subtrahendIdxs (fun j => b i j) := by
+      funext i; simp [SumSub.col, hcc]
+    rw [hrow, hcol]
+    simp only [sumAt_sub]
+    rw [sumAt_comm cs.addendIdxs rs.addendIdxs, sumAt_comm cs.addendIdxs rs.subtrahendIdxs,
+        sumAt_comm cs.subtrahendIdxs rs.addendIdxs, sumAt_comm cs.subtrahendIdxs rs.subtrahendIdxs]
+    simp only [Val.sub_def, Val.neg_add', Val.neg_neg']
+    ac_rfl
+
+/-- the same statement by ids: merging the rows' signed merge over the columns equals merging
+    the columns' signed merge over the rows -/
+theorem signedMerge_symmetric (b : Nat → Nat → Val) (rIds cIds rp rn cp cn : List Int) :
+    signedMerge cIds cp cn (fun j => signedMerge rIds rp rn (fun i => b i j))
+      = signedMerge rIds rp rn (fun i => signedMerge cIds cp cn (fun j => b i j)) := by
+  unfold signedMerge
+  simp only [← sumAt_idxsOfIds, sumAt_sub]
+  rw [sumAt_comm (idxsOfIds cIds cp) (idxsOfIds rIds rp), sumAt_comm (idxsOfIds cIds cp) (idxsOfIds rIds rn),
+      sumAt_comm (idxsOfIds cIds cn) (idxsOfIds rIds rp), sumAt_comm (idxsOfIds cIds cn) (idxsOfIds rIds rn)]
+  simp only [Val.sub_def, Val.neg_add', Val.neg_neg']
+  ac_rfl
+
+/-! ## 3. measures that cannot be added are NaN for every subtotal -/
+
+/-- **nan_measures**: mean, median, standard deviation, column index (all built with
+    `NanSubtotals`) are NaN in every inserted cell; the body is untouched -/
+theorem nan_measures (v : Nat → Nat → Val) (nr nc : Nat) (x : SubCtx) (i j k l : Nat) :
+    (Msr.nanMeasure v nr nc x).insRows k j = .nan ∧ (Msr.nanMeasure v nr nc x).insCols i l = .nan
+      ∧ (Msr.nanMeasure v nr nc x).inter k l = .nan ∧ (Msr.nanMeasure v nr nc x).body i j = v i j :=
+  ⟨rfl, rfl, rfl, rfl⟩
+
+theorem nan_measures_strand (v : Nat → Val) (n : Nat) (subs : List Subtotal) (i k : Nat) :
+    (StripeMsr.nanMeasure v n subs).subs k = .nan ∧ (StripeMsr.nanMeasure v n subs).base i = v i :=
+  ⟨rfl, rfl⟩
+
+/-! ## 4. differences -/
+
+section differences
+variable (m : MatCounts) (dn : Bool) (x : SubCtx)
+
+/-- **difference_rules** (a): the own-direction base of a difference is NaN (weighted and
+    unweighted), in the inserted row/column and in every intersection -/
+theorem diff_row_base_nan (k j l : Nat) (hd : (subAt x.rowSubs k).isDiff = true) :
+    (Msr.rowWeightedBases m x).insRows k j = .nan ∧ (Msr.rowWeightedBases m x).inter k l = .nan
+      ∧ (Msr.rowUnweightedBases m x).insRows k j = .nan ∧ (Msr.rowUnweightedBases m x).inter k l = .nan := by
+  simp [Msr.rowWeightedBases, Msr.rowUnweightedBases, SumSub.row, hd]
+
+theorem diff_col_base_nan (i k l : Nat) (hd : (subAt x.colSubs l).isDiff = true) :
+    (Msr.columnWeightedBases m x).insCols i l = .nan ∧ (Msr.columnWeightedBases m x).inter k l = .nan
+      ∧ (Msr.columnUnweightedBases m x).insCols i l = .nan ∧ (Msr.columnUnweightedBases m x).inter k l = .nan := by
+  simp [Msr.columnWeightedBases, Msr.columnUnweightedBases, SumSub.col, hd]
+
+/-- **difference_rules** (b): the own-direction proportion of a difference is NaN, unless the
+    dimension is a categorical date (inserted row/column), and always in an intersection -/
+theorem diff_row_proportion_nan (k j l : Nat) (hd : (subAt x.rowSubs k).isDiff = true) :
+    (x.rowsCatDate = false → (Msr.rowProportions m dn x).insRows k j = .nan)
+      ∧ (Msr.rowProportions m dn x).inter k l = .nan := by
+  constructor
+  · intro hcd
+    simp [Msr.rowProportions, WaveDiff.row, hcd, Msr.rowWeightedBases, SumSub.row, hd]
+  · simp [Msr.rowProportions, Blocks.zipWith, Msr.rowWeightedBases, SumSub.row, hd]
+
+theorem diff_col_proportion_nan (i k l : Nat) (hd : (subAt x.colSubs l).isDiff = true) :
+    (x.colsCatDate = false → (Msr.columnProportions m dn x).insCols i l = .nan)
+      ∧ (Msr.columnProportions m dn x).inter k l = .nan := by
+  constructor
+  · intro hcd
+    simp [Msr.columnProportions, WaveDiff.col, hcd, Msr.columnWeightedBases, SumSub.col, hd]
+  · simp [Msr.columnProportions, Blocks.zipWith, Msr.columnWeightedBases, SumSub.col, hd]
+
+/-- **difference_rules** (c): the intersection of two differences is NaN: the count, and with
+    it every proportion -/
+theorem diff_x_diff_nan (k l : Nat) (hr : (subAt x.rowSubs k).isDiff = true)
+    (hc : (subAt x.colSubs l).isDiff = true) :
+    (Msr.counts m dn x).inter k l = .nan ∧ (Msr.rowProportions m dn x).inter k l = .nan
+      ∧ (Msr.columnProportions m dn x).inter k l = .nan ∧ (Msr.tableProportions m dn x).inter k l = .nan := by
+  simp [Msr.counts, SumSub.blocks, SumSub.inter, hr, hc, Msr.rowProportions, Msr.columnProportions,
+    Msr.tableProportions, Blocks.zipWith]
+
+/-- **difference_rules** (d): in a response that carries valid counts (`diff_nans`) the count
+    of a difference is NaN in its inserted row / column and in every intersection -/
+theorem valid_counts_diff_nan (i j k l : Nat) :
+    ((subAt x.rowSubs k).isDiff = true →
+        (Msr.counts m true x).insRows k j = .nan ∧ (Msr.counts m true x).inter k l = .nan)
+    ∧ ((subAt x.colSubs l).isDiff = true →
+        (Msr.counts m true x).insCols i l = .nan ∧ (Msr.counts m true x).inter k l = .nan) := by
+  constructor
+  · intro hd
+    simp [Msr.counts, SumSub.blocks, SumSub.row, SumSub.inter, hd]
+  · intro hd
+    simp [Msr.counts, SumSub.blocks, SumSub.col, SumSub.inter, hd]
+
+/-- without valid counts a difference's count is the signed sum (not NaN by fiat) -/
+theorem diff_count_signed (k j : Nat) :
+    (Msr.counts m false x).insRows k j
+      = sumAt (subAt x.rowSubs k).addendIdxs (fun i => m.counts i j)
+        - sumAt (subAt x.rowSubs k).subtrahendIdxs (fun i => m.counts i j) := by
+  simp [Msr.counts, SumSub.blocks, SumSub.row]
+
+/-! ### categorical-date dimensions: the wave difference -/
+
+/-- **wave_diff** (rows): on a categorical-date rows dimension a one-minus-one difference
+    `+a −s` reports the difference of the two percentages, for the row AND the column
+    proportions (each with its own base) -/
+theorem wave_diff_rows (k j a s : Nat) (hcd : x.rowsCatDate = true)
+    (hs : subAt x.rowSubs k = ⟨[a], [s]⟩) :
+    (Msr.rowProportions m dn x).insRows k j
+        = pctDiff (m.counts a j) (m.rowBases a j) (m.counts s j) (m.rowBases s j)
+      ∧ (Msr.columnProportions m dn x).insRows k j
+        = pctDiff (m.counts a j) (m.columnBases a j) (m.counts s j) (m.columnBases s j) := by
+  simp [Msr.rowProportions, Msr.columnProportions, WaveDiff.row, hcd, hs, Subtotal.isDiff, WaveDiff.multi,
+    WaveDiff.pctDiff, pctDiff]
+
+theorem wave_diff_cols (i l a s : Nat) (hcd : x.colsCatDate = true)
+    (hs : subAt x.colSubs l = ⟨[a], [s]⟩) :
+    (Msr.rowProportions m dn x).insCols i l
+        = pctDiff (m.counts i a) (m.rowBases i a) (m.counts i s) (m.rowBases i s)
+      ∧ (Msr.columnProportions m dn x).insCols i l
+        = pctDiff (m.counts i a) (m.columnBases i a) (m.counts i s) (m.columnBases i s) := by
+  simp [Msr.rowProportions, Msr.columnProportions, WaveDiff.col, hcd, hs, Subtotal.isDiff, WaveDiff.multi,
+    WaveDiff.pctDiff, pctDiff]
+
+/-- the two percentages are the proportions the body shows for the two elements -/
+theorem wave_diff_rows_body (k j a s : Nat) (hcd : x.rowsCatDate = true)
+    (hs : subAt x.rowSubs k = ⟨[a], [s]⟩) :
+    (Msr.rowProportions m dn x).insRows k j
+      = (Msr.rowProportions m dn x).body a j - (Msr.rowProportions m dn x).body s j := by
+  rw [(wave_diff_rows m dn x k j a s hcd hs).1]
+  simp [Msr.rowProportions, Blocks.zipWith, Msr.counts, SumSub.blocks, Msr.rowWeightedBases, pctDiff]
+
+/-- **wave_diff_multi** (rows): a difference with several terms on either side is NaN in the
+    row and in the column proportions -/
+theorem wave_diff_multi_rows (k j : Nat) (hcd : x.rowsCatDate = true)
+    (hd : (subAt x.rowSubs k).isDiff = true)
+    (hm : (subAt x.rowSubs k).subtrahendIdxs.length > 1 ∨ (subAt x.rowSubs k).addendIdxs.length > 1) :
+    (Msr.rowProportions m dn x).insRows k j = .nan ∧ (Msr.columnProportions m dn x).insRows k j = .nan := by
+  have hmulti : WaveDiff.multi (subAt x.rowSubs k) = true := by
+    unfold WaveDiff.multi
+    rcases hm with h | h <;> simp [hd, h]
+  simp [Msr.rowProportions, Msr.columnProportions, WaveDiff.row, hcd, hd, hmulti]
+
+theorem wave_diff_multi_cols (i l : Nat) (hcd : x.colsCatDate = true)
+    (hd : (subAt x.colSubs l).isDiff = true)
+    (hm : (subAt x.colSubs l).subtrahendIdxs.length > 1 ∨ (subAt x.colSubs l).addendIdxs.length > 1) :
+    (Msr.rowProportions m dn x).insCols i l = .nan ∧ (Msr.columnProportions m dn x).insCols i l = .nan := by
+  have hmulti : WaveDiff.multi (subAt x.colSubs l) = true := by
+    unfold WaveDiff.multi
+    rcases hm with h | h <;> simp [hd, h]
+  simp [Msr.rowProportions, Msr.columnProportions, WaveDiff.col, hcd, hd, hmulti]
+
+end differences
+
+/-- strand: one-minus-one and multi-term differences of a categorical-date stripe -/
+theorem wave_diff_strand (c : StripeCounts) (t : Val) (ht : c.tableBase = some t) (subs : List Subtotal)
+    (k a s : Nat) (hs : subAt subs k = ⟨[a], [s]⟩) :
+    (StripeMsr.tableProportions c true subs).subs k
+      = pctDiff (c.counts a) (c.bases a) (c.counts s) (c.bases s) := by
+  simp [StripeMsr.tableProportions, ht, Stripe.waveVal, hs, Subtotal.isDiff, WaveDiff.multi,
+    WaveDiff.pctDiff, pctDiff]
+
+theorem wave_diff_multi_strand (c : StripeCounts) (t : Val) (ht : c.tableBase = some t)
+    (subs : List Subtotal) (k : Nat) (hd : (subAt subs k).isDiff = true)
+    (ha : (subAt subs k).addendIdxs ≠ [])
+    (hm : (subAt subs k).subtrahendIdxs.length > 1 ∨ (subAt subs k).addendIdxs.length > 1) :
+    (StripeMsr.tableProportions c true subs).subs k = .nan := by
+  have hmulti : WaveDiff.multi (subAt subs k) = true := by
+    unfold WaveDiff.multi
+    rcases hm with h | h <;> simp [hd, h]
+  simp [StripeMsr.tableProportions, ht, Stripe.waveVal, hd, ha, hmulti]
+
+/-- the predicate of the UNFIXED tree (`any(subtrahend_idxs)`) misses the multi-term difference
+    whose only subtrahend is the first element (finding F1) -/
+theorem wave_diff_multi_legacy_counterexample :
+    WaveDiff.multi ⟨[1, 2], [0]⟩ = true ∧ WaveDiff.multiLegacy ⟨[1, 2], [0]⟩ = false := by
+  decide
+
+/-- …and agrees with the fixed predicate as soon as some subtrahend index is non-zero -/
+theorem multiLegacy_eq_multi (s : Subtotal) (h : ∃ i ∈ s.subtrahendIdxs, i ≠ 0) :
+    WaveDiff.multiLegacy s = WaveDiff.multi s := by
+  obtain ⟨i, hi, hne⟩ := h
+  have h1 : s.subtrahendIdxs.any (fun i => i != 0) = true := by
+    rw [List.any_eq_true]; exact ⟨i, hi, by simpa using hne⟩
+  have h2 : s.isDiff = true := by
+    unfold Subtotal.isDiff
+    cases hs : s.subtrahendIdxs with
+    | nil => rw [hs] at hi; cases hi
+    | cons _ _ => rfl
+  simp [WaveDiff.multiLegacy, WaveDiff.multi, h1, h2]
+
+/-! ## 5. a subtotal without subtrahends is the merged category
+
+  `mergeAxis c ax A` is the table of the data set in which the categories at positions `A` of
+  axis `ax` have been merged into one category (Spec).  For a CAT × CAT slice (`catXcat`) and a
+  subtotal `⟨A, []⟩` the six primitives every additive measure is made of — count, row base,
+  column base, table base, positive-term count, negative-term count — are, in the inserted
+  row / column / intersection, those of the merged category in the merged table.  Every
+  measure that is a cell-wise function of these primitives therefore agrees (`cellwise`). -/
+
+section merge
+variable (c : FT) (nr nc : Nat) (hc : c.shape = [nr, nc]) (A : List Nat) (hn : A.Nodup)
+include hc hn
+
+/-- **merge_equiv** (rows, the six primitives) -/
+theorem merge_equiv_rows (hlt : ∀ a ∈ A, a < nr) (dn : Bool) (x : SubCtx) (k j : Nat)
+    (hS : subAt x.rowSubs k = ⟨A, []⟩) :
+    primsInsRow (MatCounts.catXcat c) dn x k j
+      = primsBody (MatCounts.catXcat (mergeAxis c 0 A)) (mergedPos nr A) j := by
+  have hs0 := mergeAxis0_shape c nr nc A hc
+  have d0 := dim0_of_shape c nr nc hc
+  have d1 := dim1_of_shape c nr nc hc
+  have e0 := dim0_of_shape (mergeAxis c 0 A) _ nc hs0
+  have e1 := dim1_of_shape (mergeAxis c 0 A) _ nc hs0
+  have hcount := mergeAxis0_get_merged c nr nc A hc
+  unfold primsInsRow primsBody
+  simp only [Msr.counts, Msr.rowWeightedBases, Msr.columnWeightedBases, Msr.tableBases, SumSub.blocks,
+    PosSub.blocks, NegSub.blocks, SumSub.row, PosSub.row, NegSub.row, hS, Subtotal.isDiff,
+    MatCounts.catXcat, d0, d1, e0, e1, hcount, List.isEmpty_nil, Bool.not_true, Bool.and_false,
+    Bool.false_eq_true, if_false, sumAt_nil, Val.sub_fin0]
+  congr 1
+  · simp only [vsum_eq_sumAt]; exact sumAt_comm _ _ _
+  · exact (colsum_mergeAxis0 c nr nc A hc hn hlt j).symm
+  · exact (total_mergeAxis0 c nr nc A hc hn hlt).symm
+
+/-- **merge_equiv** (columns, the six primitives) -/
+theorem merge_equiv_cols (hlt : ∀ a ∈ A, a < nc) (dn : Bool) (x : SubCtx) (i l : Nat)
+    (hS : subAt x.colSubs l = ⟨A, []⟩) :
+    primsInsCol (MatCounts.catXcat c) dn x i l
+      = primsBody (MatCounts.catXcat (mergeAxis c 1 A)) i (mergedPos nc A) := by
+  have hs0 := mergeAxis1_shape c nr nc A hc
+  have d0 := dim0_of_shape c nr nc hc
+  have d1 := dim1_of_shape c nr nc hc
+  have e0 := dim0_of_shape (mergeAxis c 1 A) nr _ hs0
+  have e1 := dim1_of_shape (mergeAxis c 1 A) nr _ hs0
+  have hcount := mergeAxis1_get_merged c nr nc A hc
+  unfold primsInsCol primsBody
+  simp only [Msr.counts, Msr.rowWeightedBases, Msr.columnWeightedBases, Msr.tableBases, SumSub.blocks,
+    PosSub.blocks, NegSub.blocks, SumSub.col, PosSub.col, NegSub.col, hS, Subtotal.isDiff,
+    MatCounts.catXcat, d0, d1, e0, e1, hcount, List.isEmpty_nil, Bool.not_true, Bool.and_false,
+    Bool.false_eq_true, if_false, sumAt_nil, Val.sub_fin0]
+  congr 1
+  · exact (rowsum_mergeAxis1 c nr nc A hc hn hlt i).symm
+  · simp only [vsum_eq_sumAt]; exact sumAt_comm _ _ _
+  · exact (total_mergeAxis1 c nr nc A hc hn hlt).symm
+
+/-- **cellwise**: any measure that is one function `g` of the six primitives of a cell has, at
+    the subtotal, the value it has at the merged category of the merged table -/
+theorem cellwise_rows {β : Type} (g : Prims → β) (hlt : ∀ a ∈ A, a < nr) (dn : Bool) (x : SubCtx)
+    (k j : Nat) (hS : subAt x.rowSubs k = ⟨A, []⟩) :
+    g (primsInsRow (MatCounts.catXcat c) dn x k j)
+      = g (primsBody (MatCounts.catXcat (mergeAxis c 0 A)) (mergedPos nr A) j) := by
+  rw [merge_equiv_rows c nr nc hc A hn hlt dn x k j hS]
+
+theorem cellwise_cols {β : Type} (g : Prims → β) (hlt : ∀ a ∈ A, a < nc) (dn : Bool) (x : SubCtx)
+    (i l : Nat) (hS : subAt x.colSubs l = ⟨A, []⟩) :
+    g (primsInsCol (MatCounts.catXcat c) dn x i l)
+      = g (primsBody (MatCounts.catXcat (mergeAxis c 1 A)) i (mergedPos nc A)) := by
+  rw [merge_equiv_cols c nr nc hc A hn hlt dn x i l hS]
+
+/-- **merge_equiv** for the three proportions of an inserted row (any dimension types: a
+    subtotal without subtrahends never takes the wave-difference path) -/
+theorem merge_equiv_proportions_rows (hlt : ∀ a ∈ A, a < nr) (dn : Bool) (x x' : SubCtx) (k j : Nat)
+    (hS : subAt x.rowSubs k = ⟨A, []⟩) :
+    let m := MatCounts.catXcat c
+    let m' := MatCounts.catXcat (mergeAxis c 0 A)
+    (Msr.rowProportions m dn x).insRows k j = (Msr.rowProportions m' dn x').body (mergedPos nr A) j
+      ∧ (Msr.columnProportions m dn x).insRows k j = (Msr.columnProportions m' dn x').body (mergedPos nr A) j
+      ∧ (Msr.tableProportions m dn x).insRows k j = (Msr.tableProportions m' dn x').body (mergedPos nr A) j := by
+  have h := merge_equiv_rows c nr nc hc A hn hlt dn x k j hS
+  have hcnt := congrArg Prims.count h
+  have hrb := congrArg Prims.rowBase h
+  have hcb := congrArg Prims.colBase h
+  have htb := congrArg Prims.tableBase h
+  simp only [primsInsRow, primsBody] at hcnt hrb hcb htb
+  have hnd : (subAt x.rowSubs k).isDiff = false := by rw [hS]; rfl
+  refine ⟨?_, ?_, ?_⟩
+  · simp only [Msr.rowProportions, Blocks.zipWith, WaveDiff.row, hnd, Bool.and_false, Bool.false_eq_true,
+      if_false, hcnt, hrb]
+    simp [Msr.counts, SumSub.blocks, Msr.rowWeightedBases]
+  · simp only [Msr.columnProportions, Blocks.zipWith, WaveDiff.row, hnd, Bool.and_false, Bool.false_eq_true,
+      if_false, hcnt, hcb]
+    simp [Msr.counts, SumSub.blocks, Msr.columnWeightedBases]
+  · simp only [Msr.tableProportions, Blocks.zipWith, hcnt, htb]
+    simp [Msr.counts, SumSub.blocks, Msr.tableBases]
+
+theorem merge_equiv_proportions_cols (hlt : ∀ a ∈ A, a < nc) (dn : Bool) (x x' : SubCtx) (i l : Nat)
+    (hS : subAt x.colSubs l = ⟨A, []⟩) :
+    let m := MatCounts.catXcat c
+    let m' := MatCounts.catXcat (mergeAxis c 1 A)
+    (Msr.rowProportions m dn x).insCols i l = (Msr.rowProportions m' dn x').body i (mergedPos nc A)
+      ∧ (Msr.columnProportions m dn x).insCols i l = (Msr.columnProportions m' dn x').body i (mergedPos nc A)
+      ∧ (Msr.tableProportions m dn x).insCols i l = (Msr.tableProportions m' dn x').body i (mergedPos nc A) := by
+  have h := merge_equiv_cols c nr nc hc A hn hlt dn x i l hS
+  have hcnt := congrArg Prims.count h
+  have hrb := congrArg Prims.rowBase h
+  have hcb := congrArg Prims.colBase h
+  have htb := congrArg Prims.tableBase h
+  simp only [primsInsCol, primsBody] at hcnt hrb hcb htb
+  have hnd : (subAt x.colSubs l).isDiff = false := by rw [hS]; rfl
+  refine ⟨?_, ?_, ?_⟩
+  · simp only [Msr.rowProportions, Blocks.zipWith, WaveDiff.col, hnd, Bool.and_false, Bool.false_eq_true,
+      if_false, hcnt, hrb]
+    simp [Msr.counts, SumSub.blocks, Msr.rowWeightedBases]
+  · simp only [Msr.columnProportions, Blocks.zipWith, WaveDiff.col, hnd, Bool.and_false, Bool.false_eq_true,
+      if_false, hcnt, hcb]
+    simp [Msr.counts, SumSub.blocks, Msr.columnWeightedBases]
+  · simp only [Msr.tableProportions, Blocks.zipWith, hcnt, htb]
+    simp [Msr.counts, SumSub.blocks, Msr.tableBases]
+
+end merge
+
+/-- **merge_equiv** (intersection count): a row subtotal × column subtotal cell (neither a
+    difference) is the cell of the two merged categories in the twice-merged table -/
+theorem merge_equiv_inter_count (c : FT) (nr nc : Nat) (hc : c.shape = [nr, nc]) (A B : List Nat)
+    (dn : Bool) (x : SubCtx) (k l : Nat)
+    (hR : subAt x.rowSubs k = ⟨A, []⟩) (hC : subAt x.colSubs l = ⟨B, []⟩) :
+    (Msr.counts (MatCounts.catXcat c) dn x).inter k l
+      = (MatCounts.catXcat (mergeAxis (mergeAxis c 0 A) 1 B)).counts (mergedPos nr A) (mergedPos nc B) := by
+  have hs0 := mergeAxis0_shape c nr nc A hc
+  simp only [Msr.counts, SumSub.blocks, SumSub.inter, SumSub.row, hR, hC, Subtotal.isDiff, MatCounts.catXcat,
+    List.isEmpty_nil, Bool.not_true, Bool.and_false, Bool.false_and, Bool.or_false, Bool.false_eq_true,
+    if_false, sumAt_nil, Val.sub_fin0]
+  rw [mergeAxis1_get_merged (mergeAxis c 0 A) _ nc B hs0]
+  simp only [mergeAxis0_get_merged c nr nc A hc]
+  apply sumAt_congr
+  intro j _
+  simp [SumSub.row, Subtotal.isDiff, sumAt_nil]
+
+/-! ### respondent level: the merged category counts the respondents of the addends -/
+
+/-- In a CAT × CAT cube the sum of the addend cells is the weighted number of respondents whose
+    row answer is ONE OF the addend categories (and whose column answer is `j`): exactly the
+    cell of the category obtained by merging the addends in the data. -/
+theorem merged_count_respondents (rv cv : Var) (hr : rv.kind = .cat) (s : Survey) (A : List Nat)
+    (hn : A.Nodup) (j : Nat) :
+    sumAt A (fun a => (cubeOf [rv, cv] s).get [a, j])
+      = .fin (wsum s (fun r => A.any (fun a => memCell [rv, cv] r.ans [a, j]))) := by
+  have hdis : ∀ r ∈ s, A.Pairwise (fun a b =>
+      ¬ (memCell [rv, cv] r.ans [a, j] = true ∧ memCell [rv, cv] r.ans [b, j] = true)) := by
+    intro r _
+    apply List.Pairwise.imp _ hn
+    intro a b hab ⟨ha, hb⟩
+    apply hab
+    cases hans : r.ans with
+    | nil => simp [hans, memCell] at ha
+    | cons a0 rest =>
+      simp only [hans, memCell, Var.rank, hr, Var.mem, List.take, Bool.and_eq_true, beq_iff_eq] at ha hb
+      have := ha.1.symm.trans hb.1
+      simpa using this
+  rw [← wsum_sum_disjoint s A (fun a r => memCell [rv, cv] r.ans [a, j]) hdis, ← Val.sum_fin]
+  unfold sumAt
+  rw [List.map_map]
+  rfl
+
+/-- **merge_equiv at the respondent level** (counts): tabulate the survey in which every answer
+    in `A` has been recoded to ONE category `mcat` (and no other answer is recoded to `mcat`);
+    the cell of `mcat` is the inserted-row cell of the subtotal `⟨A, []⟩`. -/
+theorem merge_equiv_respondents (rv rv' cv : Var) (hr : rv.kind = .cat) (hr' : rv'.kind = .cat)
+    (s : Survey) (A : List Nat) (hn : A.Nodup) (f : Nat → Nat) (mcat : Nat)
+    (hf : ∀ c, f c = mcat ↔ c ∈ A) (hfit : ∀ r ∈ s, ∃ c rest, r.ans = [c] :: rest) (j : Nat) :
+    SumSub.row (fun i j => (cubeOf [rv, cv] s).get [i, j]) false ⟨A, []⟩ j
+      = (cubeOf [rv', cv] (s.map (recodeFirst f))).get [mcat, j] := by
+  simp only [SumSub.row, Bool.false_and, Bool.false_eq_true, if_false, sumAt_nil, Val.sub_fin0]
+  rw [merged_count_respondents rv cv hr s A hn j]
+  simp only [cubeOf]
+  rw [wsum_map s (recodeFirst f) (fun r => rfl)]
+  congr 1
+  apply wsum_congr
+  intro r hr_mem
+  obtain ⟨c, rest, hans⟩ := hfit r hr_mem
+  simp only [recodeFirst, hans, memCell, Var.rank, hr, hr', Var.mem, List.take, List.drop, List.map_cons,
+    List.map_nil]
+  by_cases hcA : c ∈ A
+  · have h1 : (A.any fun a => ([c] == [a]) && memCell [cv] rest [j]) = memCell [cv] rest [j] := by
+      by_cases hm : memCell [cv] rest [j] = true
+      · simp only [hm, Bool.and_true]
+        rw [List.any_eq_true.mpr ⟨c, hcA, by simp⟩]
+      · simp [hm]
+    rw [h1, (hf c).mpr hcA]
+    simp
+  · have h1 : (A.any fun a => ([c] == [a]) && memCell [cv] rest [j]) = false := by
+      rw [List.any_eq_false]
+      intro a ha
+      have : c ≠ a := fun h => hcA (h ▸ ha)
+      simp [this]
+    have h2 : f c ≠ mcat := fun h => hcA ((hf c).mp h)
+    rw [h1]
+    simp [h2]
+
+/-- the hypotheses `A.Nodup`, `∀ a ∈ A, a < n` of the merge theorems hold for every subtotal the
+    library builds: resolved index lists are strictly increasing, duplicate-free and in range -/
+theorem resolved_wellformed (validIds : List Int) (i : Insertion) :
+    let S := i.toSubtotal validIds
+    S.addendIdxs.Nodup ∧ S.subtrahendIdxs.Nodup
+      ∧ S.addendIdxs.Pairwise (· < ·) ∧ S.subtrahendIdxs.Pairwise (· < ·)
+      ∧ (∀ a ∈ S.addendIdxs, a < validIds.length) ∧ (∀ a ∈ S.subtrahendIdxs, a < validIds.length) :=
+  ⟨idxsOfIds_nodup _ _, idxsOfIds_nodup _ _, idxsOfIds_sorted _ _, idxsOfIds_sorted _ _,
+   idxsOfIds_lt _ _, idxsOfIds_lt _ _⟩
+
+/-- a subtotal has no subtrahends exactly when none of its listed negative ids exists -/
+theorem no_subtrahends_iff (validIds : List Int) (i : Insertion) :
+    (i.toSubtotal validIds).isDiff = false ↔ ∀ x ∈ i.negative, x ∉ validIds := by
+  rw [isDiff_iff]
+  unfold isDifference
+  rw [List.any_eq_false]
+  simp [List.contains_iff_mem]
+
+/-! ### finding F12: intersections of the proportions bypass the wave-difference rule
+
+  CAT rows × CAT_DATE columns, counts `[[1,2,3],[4,5,6],[7,8,9]]`, row subtotal `[r0, r1]`
+  (no subtrahends), column difference `+c1 −c2`.  The column proportion the model (= the code)
+  puts in the intersection is NaN, while the merged category `r0+r1` of the merged table
+  shows the wave difference `7/15 − 9/18 = −1/30` in the difference column.  So for the
+  proportions `merge_equiv` needs the hypothesis "the crossing element is not a difference of a
+  categorical-date dimension" (`merge_equiv_proportions_rows/cols` speak about base crossing
+  elements; `merge_equiv_inter_count` about two subtotals without subtrahends). -/
+
+def f12C : FT := FT.ofFlat [3, 3] [1, 2, 3, 4, 5, 6, 7, 8, 9]
+def f12X : SubCtx := { rowSubs := [⟨[0, 1], []⟩], colSubs := [⟨[1], [2]⟩], colsCatDate := true }
+def f12X' : SubCtx := { rowSubs := [], colSubs := [⟨[1], [2]⟩], colsCatDate := true }
+
+theorem merge_equiv_proportions_catdate_counterexample :
+    (Msr.columnProportions (MatCounts.catXcat f12C) false f12X).inter 0 0 = .nan
+      ∧ (Msr.columnProportions (MatCounts.catXcat (mergeAxis f12C 0 [0, 1])) false f12X').insCols
+          (mergedPos 3 [0, 1]) 0 = .fin (-1 / 30) := by
+  decide +kernel
+
+/-- the count of that very cell DOES agree with the merged category's (`5 − 9 = −4` … per
+    column: `(2+5) − (3+6) = −2`) -/
+example : (Msr.counts (MatCounts.catXcat f12C) false f12X).inter 0 0 = .fin (-2)
+    ∧ (Msr.counts (MatCounts.catXcat (mergeAxis f12C 0 [0, 1])) false f12X').insCols (mergedPos 3 [0, 1]) 0
+        = .fin (-2) := by
+  decide +kernel
+
+/-! ## 6. non-vacuity and sample evaluations -/
+
+/-- resolution: valid ids `[3, 10, 2]`; stale id 999, missing id 13, a repeated id and a string
+    spelling (encoded as a non-matching int) contribute nothing; an all-stale dict is dropped -/
+example :
+    resolveSubtotals [3, 10, 2]
+      [{ args := [10, 3, 999, 10] }, { args := [13], negative := [3] }, { args := [77] },
+       { kwPositive := [2], args := [3], negative := [-1000002] }, { args := [3], hide := true }]
+      = [⟨[0, 1], []⟩, ⟨[], [0]⟩, ⟨[2], []⟩] := by decide
+
+/-- hypotheses of `merge_equiv_rows`: a concrete instance -/
+example : subAt f12X.rowSubs 0 = ⟨[0, 1], []⟩ ∧ [0, 1].Nodup ∧ (∀ a ∈ [0, 1], a < 3)
+    ∧ f12C.shape = [3, 3] := by decide
+
+/-- hypotheses of `wave_diff_cols` / `wave_diff_multi_cols` / `diff_col_base_nan` -/
+example : f12X.colsCatDate = true ∧ subAt f12X.colSubs 0 = ⟨[1], [2]⟩
+    ∧ (subAt f12X.colSubs 0).isDiff = true := by decide
+example : (subAt [(⟨[1, 2], [0]⟩ : Subtotal)] 0).isDiff = true
+    ∧ ((subAt [(⟨[1, 2], [0]⟩ : Subtotal)] 0).subtrahendIdxs.length > 1
+        ∨ (subAt [(⟨[1, 2], [0]⟩ : Subtotal)] 0).addendIdxs.length > 1) := by decide
+
+/-- hypothesis of `multiLegacy_eq_multi` -/
+example : ∃ i ∈ (⟨[0], [1, 2]⟩ : Subtotal).subtrahendIdxs, i ≠ 0 := ⟨1, by decide, by decide⟩
+
+/-- hypotheses of `sumListed_eq_sum_ids` -/
+example : ([3, 10, 2] : List Int).Nodup ∧ ([2, 3] : List Int).Nodup
+    ∧ ∀ x ∈ ([2, 3] : List Int), x ∈ ([3, 10, 2] : List Int) := by decide
+
+/-- hypotheses of `merge_equiv_respondents`: recoding `0,1 ↦ 3`, everything else fixed -/
+example : ∀ c, (fun c => if c = 0 ∨ c = 1 then 3 else c) c = 3 ↔ c ∈ [0, 1, 3] := by
+  intro c
+  by_cases h0 : c = 0
+  · simp [h0]
+  · by_cases h1 : c = 1
+    · simp [h1]
+    · simp [h0, h1]
+
+/-- sample: the four blocks of SumSubtotals on `[[1,2,3],[4,5,6],[7,8,9]]` with row subtotals
+    `+0+1`, `+2−0` and the column difference `+1+2−0` (values replayed on the real library) -/
+example :
+    let b := SumSub.blocks (fun i j => f12C.get [i, j]) 3 3 [⟨[0, 1], []⟩, ⟨[2], [0]⟩] [⟨[1, 2], [0]⟩] false false
+    b.insColsL = [[.fin 4], [.fin 7], [.fin 10]] ∧ b.insRowsL = [[.fin 5, .fin 7, .fin 9], [.fin 6, .fin 6, .fin 6]]
+      ∧ b.interL = [[.fin 11], [.nan]] := by
+  decide +kernel
+
 end CrCube.C04
